@@ -229,11 +229,15 @@ def real_replay(Q, ll, cfile, draws, workdir):
         if r.returncode != 0: return None, 'generated C does not build: ' + r.stdout[-200:]
         env = dict(os.environ, VP_NONDET=','.join(str(d) for d in draws))
         g = subprocess.run([gen], stdout=subprocess.PIPE, stderr=subprocess.STDOUT, text=True, env=env, timeout=120)
-        items = []
+        items = []; open_ctx = None
         for ln in g.stdout.split('\n'):
             f = ln.split()
-            if f[:1] == ['CTX'] and len(f) >= 8: items.append(f"C {f[1]} {f[3]} {f[4]} {f[7]}")
+            if f[:1] == ['BEGIN'] and len(f) >= 2: open_ctx = f[1]
+            elif f[:1] == ['CTX'] and len(f) >= 8: items.append(f"C {f[1]} {f[3]} {f[4]} {f[7]}"); open_ctx = None
             elif f[:1] == ['SKIP'] and len(f) >= 3: items.append(f"S {f[1]} {f[2]}")
+        if open_ctx is not None:
+            # the generated-C run died inside this context (double free, segfault): the real run gets the rest of it unbounded
+            items.append(f"C {open_ctx} 100000000 100000 1")
         inst = cfile[:-2] + '.inst.ll'
         open(inst, 'w').write(irinstr.instrument(open(ll).read()))
         obj = cfile[:-2] + '.inst.o'
